@@ -10,3 +10,9 @@ TRUSTED = ['A1', 'A2', 'A4', 'A5', 'A6', 'UF']
 
 def jobs(tier):
     return jobs_for('C08', MODULES, tier)
+
+
+def extra(tier, seed):
+    from fvverif.lean import lemma_status
+    ok, detail = lemma_status(['unique_solution', 'invariant_iterate'], rebuild=(tier == 'thorough'))
+    return [('lean lemmas unique_solution/invariant_iterate: operator-level embedding / permutation / mirror identities (SMT) + uniqueness => solutions correspond; several steps by iteration', ok, 'lean:' + detail)]
